@@ -419,7 +419,7 @@ impl FromBytes for c02::Case {
         let g = tree_spec_bytes(src, k, m, p, maxd, false);
         let a = aff_bytes(src, q, m);
         let points = points_bytes(src, n);
-        c02::Case { k4: k == 4, k8: k == 8, f, g, a, points }
+        c02::Case { k4: k == 4, k8: k == 8, f, g, g_schema: None, a, points }
     }
 }
 
